@@ -198,6 +198,11 @@ class Int(int):
     """compile-time integer"""
 
 
+class BoolInt(Int):
+    """result of a comparison / logical operation on two integers: documented to be carried on a
+    compiler-chosen virtual signal, so it does not pass a type on to a Signal operand"""
+
+
 class Sig:
     """a signal value; type None = the language leaves the name to the compiler / unspecified"""
     __slots__ = ("type", "value")
@@ -275,7 +280,7 @@ def ev(e, env: Env):
         else:
             r = 1 if val(v) == 0 else 0
         if isinstance(v, Int):
-            return Int(r)
+            return BoolInt(r) if op == "!" else Int(r)
         return Sig(v.type if op == "-" else None, r)
     if k == "bin":
         op = e[1]
@@ -293,9 +298,9 @@ def ev(e, env: Env):
         else:
             res = 1 if (a != 0 or b != 0) else 0
         if isinstance(l, Int) and isinstance(r, Int):
-            return Int(res)
+            return Int(res) if op in ARITH else BoolInt(res)
         if op in ARITH:
-            t = l.type if isinstance(l, Sig) else r.type
+            t = l.type if isinstance(l, Sig) else (None if isinstance(l, BoolInt) else r.type)
         elif op in CMP:
             # documented: "inherits the signal type from the left operand"; the compiler keeps
             # boolean results on virtual channels on purpose, so the name is only asserted when
